@@ -110,7 +110,10 @@ func crashChainCase(t *testing.T, run *vh.Run, r *vh.Rand, c *Case, thorough boo
 	}
 	a, err := driverRun(t, store, dirA, side, delta, false)
 	if err != nil {
-		t.Fatal(err)
+		if !driverFailure(run, err, *c) {
+			t.Fatal(err)
+		}
+		return
 	}
 	pts := c.Points
 	if len(pts) == 0 {
